@@ -618,9 +618,13 @@ func runC17(c *Ctx) {
 	for _, tb := range c17tables {
 		tableByName[tb.name] = tb.table
 	}
+	var handPairs []pair
 	for _, h := range hand {
-		pairs = append(pairs, pair{h.tname, tableByName[h.tname], texp{h.op, h.call, nil, 1}, texp{h.op, h.call, nil, 1}, "hand"})
+		handPairs = append(handPairs, pair{h.tname, tableByName[h.tname], texp{h.op, h.call, nil, 1}, texp{h.op, h.call, nil, 1}, "hand"})
 	}
+	// the sliced operand first (smallest replay), then the other hand-written positions, then the generated ones
+	sort.SliceStable(handPairs, func(i, j int) bool { return handPairs[i].tname == "slices" && handPairs[j].tname != "slices" })
+	pairs = append(handPairs, pairs...)
 
 	// (ii) metamorphic oracle
 	skipped := 0
